@@ -191,6 +191,8 @@ NOTES = {
     'C01-mps-inplace-next': 'round 6, first run: MISSED. r_C01 puts the same array object on several sites; engine F treats `out=` (and scipy `overwrite_*=True`) as a write into that argument: `modifies` of local_orthonormalize_left_qr is refuted as a definite write',
     'C14-arnoldi-inplace-normalize': 'round 6, first run: MISSED. r_C14 has integer-dtype start vectors; engine Z models np.array and has the obligation that an in-place operator keeps the kind of its array (refuted: real into an array of unknown kind)',
     'C14-lanczos-skip-normalization': 'round 6, first run: MISSED (the orthonormality proof was lost, no failing input). r_C14 has start vectors of norm 1 + 6e-9',
+    'C03-identity-inplace-scale': 'round 6, first run: MISSED (MPO.identity was called with float or complex dtype and fitting scales only). r_C03 uses every combination of scale kind and dtype (float with complex scale, int with fractional scale)',
+    'C08-twosite-physical-qnumbers-from-H': 'round 6, first run: MISSED (operator and state always carried the same physical labels). New family randqz in r_C08 / r_C09 / r_C10: a charge-conserving operator with neutral bonds whose labels were zeroed, acting on a state that keeps its labels',
     'C17-optree-node-children-alias': 'round 5, first run: MISSED. r_C17 builds two tree nodes from one list and extends one; engine F distinguishes keeping the *elements* of a list (allowed for nodes) from keeping the list itself',
     'C06-zero-coeff-filter-tolerance': 'first run: MISSED. r_C06 now includes parameter points scaled by 1e-9 ... 1e+12 (every parameter value is legal)',
 }
